@@ -3,7 +3,7 @@
 //! `SgModel.TenantKV`, and the reference-map specification evaluated on the implementation's
 //! scans / point reads / tenant listing after every write.
 use samyama::graph::{Edge, EdgeId, Label, Node, NodeId};
-use samyama::persistence::{PersistentStorage, TenantManager};
+use samyama::persistence::{PersistenceManager, PersistentStorage, TenantManager};
 use serde_json::json;
 use std::collections::HashMap;
 use vharness::{driver, util::hex, Args, Known, Report, Rng};
@@ -76,6 +76,52 @@ fn tag_of(s: &str) -> String {
     s.get(1..).and_then(|x| x.parse::<u64>().ok()).map_or_else(|| format!("?{}", s), |t| t.to_string())
 }
 
+/// the two public front ends of the storage: `PersistentStorage` directly, or through
+/// `PersistenceManager` (persist_* writes; scans observed through `recover`)
+enum Store<'a> {
+    St(&'a PersistentStorage),
+    Pm(&'a PersistenceManager),
+}
+
+impl<'a> Store<'a> {
+    fn st(&self) -> &PersistentStorage {
+        match self {
+            Store::St(s) => s,
+            Store::Pm(p) => p.storage(),
+        }
+    }
+    fn write(&self, op: &Op) -> bool {
+        let node = |i: u64, g: u64| Node::new(NodeId::new(i), Label::new(format!("L{}", g)));
+        let edge = |i: u64, g: u64| Edge::new(EdgeId::new(i), NodeId::new(1), NodeId::new(2), format!("T{}", g));
+        match (self, op) {
+            (Store::St(s), Op::PutNode(t, i, g)) => s.put_node(t, &node(*i, *g)).is_ok(),
+            (Store::St(s), Op::DelNode(t, i)) => s.delete_node(t, *i).is_ok(),
+            (Store::St(s), Op::PutEdge(t, i, g)) => s.put_edge(t, &edge(*i, *g)).is_ok(),
+            (Store::St(s), Op::DelEdge(t, i)) => s.delete_edge(t, *i).is_ok(),
+            (Store::Pm(p), Op::PutNode(t, i, g)) => p.persist_create_node(t, &node(*i, *g)).is_ok(),
+            (Store::Pm(p), Op::DelNode(t, i)) => p.persist_delete_node(t, *i).is_ok(),
+            (Store::Pm(p), Op::PutEdge(t, i, g)) => p.persist_create_edge(t, &edge(*i, *g)).is_ok(),
+            (Store::Pm(p), Op::DelEdge(t, i)) => p.persist_delete_edge(t, *i).is_ok(),
+        }
+    }
+    /// (nodes, edges) of one tenant: scan_nodes + scan_edges, or one `recover`
+    fn scans(&self, t: &str) -> (Option<Vec<Node>>, Option<Vec<Edge>>) {
+        match self {
+            Store::St(s) => (s.scan_nodes(t).ok(), s.scan_edges(t).ok()),
+            Store::Pm(p) => match p.recover(t) {
+                Ok((n, e)) => (Some(n), Some(e)),
+                Err(_) => (None, None),
+            },
+        }
+    }
+    fn list(&self) -> Option<Vec<String>> {
+        match self {
+            Store::St(s) => s.list_persisted_tenants().ok(),
+            Store::Pm(p) => p.list_persisted_tenants().ok(),
+        }
+    }
+}
+
 struct RealRun {
     obs: Vec<String>,
     /// structural class of each step's foreign data, if any (computed against the acknowledged writes)
@@ -84,7 +130,8 @@ struct RealRun {
 }
 
 /// one case on a (clean) real store
-fn run_real(st: &PersistentStorage, ops: &[Op]) -> RealRun {
+fn run_real(store: &Store, ops: &[Op]) -> RealRun {
+    let st = store.st();
     let tenants: Vec<String> = dedup_keep(ops.iter().map(|o| o.tenant().to_string()));
     let ids: Vec<u64> = dedup_keep(ops.iter().map(|o| o.id()));
     let mut refm: HashMap<(char, String, u64), u64> = HashMap::new();
@@ -92,14 +139,7 @@ fn run_real(st: &PersistentStorage, ops: &[Op]) -> RealRun {
     let mut class = vec![];
     let mut two = false;
     for op in ops {
-        let ok = match op {
-            Op::PutNode(t, i, g) => st.put_node(t, &Node::new(NodeId::new(*i), Label::new(format!("L{}", g)))).is_ok(),
-            Op::DelNode(t, i) => st.delete_node(t, *i).is_ok(),
-            Op::PutEdge(t, i, g) => st
-                .put_edge(t, &Edge::new(EdgeId::new(*i), NodeId::new(1), NodeId::new(2), format!("T{}", g)))
-                .is_ok(),
-            Op::DelEdge(t, i) => st.delete_edge(t, *i).is_ok(),
-        };
+        let ok = store.write(op);
         if ok {
             match op {
                 Op::PutNode(t, i, g) => {
@@ -136,10 +176,11 @@ fn run_real(st: &PersistentStorage, ops: &[Op]) -> RealRun {
         let mut scans_n = vec![];
         let mut scans_e = vec![];
         for t in &tenants {
-            scans_n.push(match st.scan_nodes(t) {
-                Err(_) => "E".to_string(),
-                Ok(v) if v.is_empty() => "~".to_string(),
-                Ok(v) => v
+            let (ns, es) = store.scans(t);
+            scans_n.push(match ns {
+                None => "E".to_string(),
+                Some(v) if v.is_empty() => "~".to_string(),
+                Some(v) => v
                     .iter()
                     .map(|n| {
                         let tag = n.labels.iter().next().map_or("?".to_string(), |l| tag_of(l.as_str()));
@@ -149,10 +190,10 @@ fn run_real(st: &PersistentStorage, ops: &[Op]) -> RealRun {
                     .collect::<Vec<_>>()
                     .join("+"),
             });
-            scans_e.push(match st.scan_edges(t) {
-                Err(_) => "E".to_string(),
-                Ok(v) if v.is_empty() => "~".to_string(),
-                Ok(v) => v
+            scans_e.push(match es {
+                None => "E".to_string(),
+                Some(v) if v.is_empty() => "~".to_string(),
+                Some(v) => v
                     .iter()
                     .map(|e| {
                         let tag = tag_of(e.edge_type.as_str());
@@ -165,23 +206,36 @@ fn run_real(st: &PersistentStorage, ops: &[Op]) -> RealRun {
         }
         let mut gets_n = vec![];
         let mut gets_e = vec![];
+        let mut read_mismatch = false;
         for t in &tenants {
             for i in &ids {
-                gets_n.push(match st.get_node(t, *i) {
+                let gn = match st.get_node(t, *i) {
                     Err(_) => "E".to_string(),
                     Ok(None) => "_".to_string(),
                     Ok(Some(n)) => format!("{}.{}", n.id.as_u64(), n.labels.iter().next().map_or("?".to_string(), |l| tag_of(l.as_str()))),
-                });
-                gets_e.push(match st.get_edge(t, *i) {
+                };
+                let ge = match st.get_edge(t, *i) {
                     Err(_) => "E".to_string(),
                     Ok(None) => "_".to_string(),
                     Ok(Some(e)) => format!("{}.{}", e.id.as_u64(), tag_of(e.edge_type.as_str())),
-                });
+                };
+                for (kind, got) in [('n', &gn), ('e', &ge)] {
+                    let want = refm.get(&(kind, t.clone(), *i)).map_or("_".to_string(), |g| format!("{}.{}", i, g));
+                    if got.as_str() != "E" && *got != want {
+                        read_mismatch = true;
+                    }
+                }
+                gets_n.push(gn);
+                gets_e.push(ge);
             }
         }
-        let listed = match st.list_persisted_tenants() {
-            Err(_) => "E".to_string(),
-            Ok(mut v) => {
+        if read_mismatch && cls != Some("separator-collision") {
+            // a point read cannot be explained by a scan running too far: two names share keys
+            cls = Some(if tenants.iter().all(|t| accepted(t)) { "accepted-names-share-keys" } else { "separator-collision" });
+        }
+        let listed = match store.list() {
+            None => "E".to_string(),
+            Some(mut v) => {
                 v.sort_by(|a, b| a.as_bytes().cmp(b.as_bytes()));
                 if v.is_empty() {
                     "~".to_string()
@@ -215,9 +269,29 @@ fn clean(st: &PersistentStorage, ops: &[Op]) -> bool {
         && tenants.iter().all(|t| st.scan_edges(t).map_or(true, |v| v.is_empty()))
 }
 
+/// round-1 pool: prefixes of one another, adjacent around ':' in byte order, containing ':', empty, non-ASCII
 const POOL: &[&str] = &[
     "a", "b", "a:n", "a:", ":", "", "ab", "a0", "a;", "a9", "b:e", "default", "é", "a:n:0000000000000001", "A", "a:e",
 ];
+
+/// Groups of *accepted* names that some normalisation would identify (trim of ASCII / Unicode
+/// white space, case folding, Unicode normal form, path-like clean-up, zero-width characters,
+/// NUL, length truncation).  Storage must keep every pair inside a group apart.
+fn near_groups() -> Vec<Vec<String>> {
+    let long = format!("t{}", "x".repeat(299));
+    vec![
+        vec![
+            "acme", "acme ", " acme", "acme\t", "acme\r", "acme\n", "acme\r\n", "acme\u{a0}", "\u{a0}acme", "acme\u{3000}", "Acme",
+            "ACME", "acme/", "acme.", "./acme", "acme\u{200b}", "ac\u{200d}me", "\u{feff}acme", "acme\0", "acme  ", "ACME ",
+        ]
+        .into_iter()
+        .map(String::from)
+        .collect(),
+        vec!["caf\u{e9}", "cafe\u{301}", "CAF\u{c9}", "caf\u{e9} ", "cafe"].into_iter().map(String::from).collect(),
+        vec![long.clone(), format!("{} ", long), format!("{}y", &long[..299]), format!("{}x", long), long.to_uppercase(), long[..255].to_string()],
+        vec!["default", "default ", "Default", " default", "default\n"].into_iter().map(String::from).collect(),
+    ]
+}
 
 fn templates(t1: &str, t2: &str) -> Vec<Vec<Op>> {
     let (a, b) = (t1.to_string(), t2.to_string());
@@ -231,6 +305,7 @@ fn templates(t1: &str, t2: &str) -> Vec<Vec<Op>> {
             Op::PutNode(b.clone(), 1, 22),
             Op::DelEdge(b.clone(), 2),
         ],
+        // the same id under both names: put by one then read by the other, delete by one then read by the other
         vec![
             Op::PutNode(b.clone(), 1, 30),
             Op::PutNode(a.clone(), 1, 31),
@@ -240,11 +315,37 @@ fn templates(t1: &str, t2: &str) -> Vec<Vec<Op>> {
             Op::PutEdge(a.clone(), 0, 34),
             Op::DelNode(a.clone(), 1),
         ],
+        // both column families at one id, deletes across tenants
+        vec![
+            Op::PutEdge(a.clone(), 5, 50),
+            Op::PutEdge(b.clone(), 5, 51),
+            Op::PutNode(a.clone(), 5, 52),
+            Op::PutNode(b.clone(), 5, 53),
+            Op::DelEdge(a.clone(), 5),
+            Op::DelNode(a.clone(), 5),
+            Op::PutEdge(a.clone(), 5, 54),
+            Op::DelNode(b.clone(), 5),
+        ],
     ]
 }
 
-fn random_case(rng: &mut Rng) -> Vec<Op> {
-    let names: Vec<&str> = (0..3).map(|_| *rng.pick(POOL)).collect();
+fn random_case(rng: &mut Rng, groups: &[Vec<String>]) -> Vec<Op> {
+    // half of the histories stay inside one near-identical group
+    let names: Vec<String> = if rng.chance(1, 2) {
+        let g = rng.pick(groups);
+        (0..3).map(|_| rng.pick(g).clone()).collect()
+    } else {
+        (0..3)
+            .map(|_| {
+                if rng.chance(1, 3) {
+                    let g = rng_group(rng, groups);
+                    rng.pick(g).clone()
+                } else {
+                    rng.pick(POOL).to_string()
+                }
+            })
+            .collect()
+    };
     let ids: [u64; 5] = [0, 1, 2, 255, u64::MAX];
     let mut ops = vec![];
     for _ in 0..4 + rng.usize(8) {
@@ -262,21 +363,46 @@ fn random_case(rng: &mut Rng) -> Vec<Op> {
     ops
 }
 
+fn rng_group<'a>(rng: &mut Rng, groups: &'a [Vec<String>]) -> &'a Vec<String> {
+    &groups[rng.usize(groups.len())]
+}
+
+static T_PM_US: std::sync::atomic::AtomicU64 = std::sync::atomic::AtomicU64::new(0);
+static T_ST_US: std::sync::atomic::AtomicU64 = std::sync::atomic::AtomicU64::new(0);
+/// adds the elapsed time of one case to the per-front-end totals (evidence only)
+struct Timer(std::time::Instant, bool);
+impl Drop for Timer {
+    fn drop(&mut self) {
+        let us = self.0.elapsed().as_micros() as u64;
+        (if self.1 { &T_PM_US } else { &T_ST_US }).fetch_add(us, std::sync::atomic::Ordering::Relaxed);
+    }
+}
+
+/// one case: a history and the front end it is driven through
+#[derive(Clone)]
+struct Case {
+    ops: Vec<Op>,
+    pm: bool, // through PersistenceManager (persist_* / recover) instead of PersistentStorage
+}
+
 fn main() {
     let args = Args::parse();
     let known = Known::load(&args.known, "C17");
     let mut rep = Report::new(
         "C17",
         "interleaved put/delete of nodes and relationships under pairs and triples of tenant names (prefixes of one another, adjacent in \
-         byte order, containing ':', empty, non-ASCII, \"default\") on a real RocksDB-backed PersistentStorage; scan_nodes/scan_edges per \
-         tenant, get_node/get_edge per (tenant,id) and list_persisted_tenants after every write; non-trivial = at some point two distinct \
-         tenant names both hold data in the same column family (their key ranges are then adjacent or nested); distinct = distinct rendered history",
+         byte order, containing ':', empty, non-ASCII, \"default\", and groups of accepted names that a normalisation would identify: \
+         leading/trailing space, tab, CR, LF, NBSP, ideographic space, ASCII case, Unicode normal form, trailing '/' or '.', zero-width \
+         characters, NUL, 300-byte names) on a real RocksDB-backed PersistentStorage and through PersistenceManager (persist_* / recover); \
+         scans per tenant, get_node/get_edge per (tenant,id) and list_persisted_tenants after every write; non-trivial = at some point two \
+         distinct tenant names both hold data in the same column family; distinct = distinct rendered history + front end",
         &args.replays,
         args.seed,
     );
     let exe = args.driver_exe("drv_tenantkv");
+    let groups = near_groups();
 
-    let mut cases: Vec<Vec<Op>> = vec![];
+    let mut cases: Vec<Case> = vec![];
     let mut files: Vec<std::path::PathBuf> = vec![];
     if let Some(r) = &args.replay {
         files.push(r.clone());
@@ -287,42 +413,117 @@ fn main() {
     let mut n_corpus = 0;
     for f in &files {
         for line in std::fs::read_to_string(f).unwrap_or_default().lines() {
-            if let Some(rest) = line.trim().strip_prefix("ops ") {
-                if let Some(c) = parse(rest.trim()) {
-                    cases.push(c);
-                    n_corpus += 1;
-                }
+            let line = line.trim();
+            let (pm, rest) = if let Some(r) = line.strip_prefix("pmops ") {
+                (true, r)
+            } else if let Some(r) = line.strip_prefix("ops ") {
+                (false, r)
+            } else {
+                continue;
+            };
+            if let Some(c) = parse(rest.trim()) {
+                cases.push(Case { ops: c, pm });
+                n_corpus += 1;
             }
         }
     }
     rep.count_n("corpus_cases", n_corpus);
 
     if args.replay.is_none() {
+        let mut rng = Rng::new(args.seed);
+        // (1) always: every pair inside a near-identical group (orientation from the seed; the
+        //     interleavings use both names in both roles) x every interleaving
+        let mut n_near = 0;
+        for g in &groups {
+            for (i, t1) in g.iter().enumerate() {
+                for t2 in g.iter().skip(i + 1) {
+                    let (x, y) = if rng.chance(1, 2) { (t1, t2) } else { (t2, t1) };
+                    for ops in templates(x, y) {
+                        cases.push(Case { ops, pm: false });
+                    }
+                    n_near += 1;
+                }
+            }
+        }
+        // (2) always: every ordered pair of the round-1 pool x the first two interleavings
         for t1 in POOL {
             for t2 in POOL {
-                cases.extend(templates(t1, t2));
+                for ops in templates(t1, t2).into_iter().take(2) {
+                    cases.push(Case { ops, pm: false });
+                }
+            }
+        }
+        // (3) sampled from the seed: ordered pairs over the union of all names
+        let all: Vec<String> = POOL.iter().map(|s| s.to_string()).chain(groups.iter().flatten().cloned()).collect();
+        let n_pairs = if args.thorough() { 4_000 } else { 150 };
+        for _ in 0..n_pairs {
+            let t1 = rng.pick(&all).clone();
+            let t2 = rng.pick(&all).clone();
+            for ops in templates(&t1, &t2) {
+                cases.push(Case { ops, pm: false });
+            }
+        }
+        // (4) through PersistenceManager: base-vs-variant pairs of every group (both orders), the
+        //     round-1 witnesses, and sampled pairs
+        let mut n_pm = 0;
+        for g in &groups {
+            for v in g.iter().skip(1) {
+                let orientations: Vec<(&String, &String)> =
+                    if args.thorough() { vec![(&g[0], v), (v, &g[0])] } else if rng.chance(1, 2) { vec![(&g[0], v)] } else { vec![(v, &g[0])] };
+                for (t1, t2) in orientations {
+                    for ops in templates(t1, t2) {
+                        cases.push(Case { ops, pm: true });
+                        n_pm += 1;
+                    }
+                }
+            }
+        }
+        for (t1, t2) in [("a", "b"), ("a", "a:n"), ("", "a"), ("a9", "a;"), ("ab", "a")] {
+            for ops in templates(t1, t2) {
+                cases.push(Case { ops, pm: true });
+                n_pm += 1;
+            }
+        }
+        for _ in 0..(if args.thorough() { 600 } else { 10 }) {
+            let t1 = rng.pick(&all).clone();
+            let t2 = rng.pick(&all).clone();
+            for ops in templates(&t1, &t2) {
+                cases.push(Case { ops, pm: true });
+                n_pm += 1;
             }
         }
         rep.exhaustive = true;
         rep.exhaustive_note = format!(
-            "all {} ordered pairs of the {} pool names x 2 fixed interleavings (exhaustive over the pool, not over all strings); plus PRNG histories over name triples (not exhaustive)",
+            "always: all {} pairs inside the {} near-identical name groups x 3 interleavings (orientation from the seed), all {} ordered pairs of the 16-name round-1 pool x 2 interleavings, \
+             {} PersistenceManager histories (every base/variant pair of every group x 3 interleavings + round-1 witnesses + sampled); sampled from the seed: {} ordered pairs \
+             over all {} names x 3 interleavings and PRNG histories over name triples (exhaustive over the listed pools, not over all strings)",
+            n_near,
+            groups.len(),
             POOL.len() * POOL.len(),
-            POOL.len()
+            n_pm,
+            n_pairs,
+            all.len()
         );
-        let mut rng = Rng::new(args.seed);
-        let n_rand = if args.thorough() { 30_000 } else { 2_500 };
+        let n_rand = if args.thorough() { 30_000 } else { 800 };
         for _ in 0..n_rand {
             let mut r = rng.fork();
-            cases.push(random_case(&mut r));
+            cases.push(Case { ops: random_case(&mut r, &groups), pm: false });
+        }
+        for _ in 0..(if args.thorough() { 1_500 } else { 30 }) {
+            let mut r = rng.fork();
+            cases.push(Case { ops: random_case(&mut r, &groups), pm: true });
         }
     }
 
-    // real runs: a few worker threads, one RocksDB each, cleaned between cases
+    // real runs: worker threads; storage cases share one RocksDB per worker (cleaned between
+    // cases), PersistenceManager cases get a fresh directory each
     let n_workers = 8usize;
     let work = args.work.clone();
-    let per = (cases.len() + n_workers - 1) / n_workers.max(1);
-    let reals: Vec<RealRun> = std::thread::scope(|sc| {
-        let hs: Vec<_> = cases
+    let mut reals: Vec<Option<RealRun>> = (0..cases.len()).map(|_| None).collect();
+    let indexed: Vec<(usize, &Case)> = cases.iter().enumerate().collect();
+    let per = (indexed.len() + n_workers - 1) / n_workers.max(1);
+    let parts: Vec<Vec<(usize, RealRun)>> = std::thread::scope(|sc| {
+        let hs: Vec<_> = indexed
             .chunks(per.max(1))
             .enumerate()
             .map(|(w, part)| {
@@ -336,38 +537,71 @@ fn main() {
                         PersistentStorage::open(&d).expect("open rocksdb")
                     };
                     let mut st = open(&mut n_db);
+                    let mut pm: Option<PersistenceManager> = None;
+                    let mut n_pm_dirs = 0;
                     let mut out = vec![];
-                    for c in part {
-                        out.push(run_real(&st, c));
-                        if !clean(&st, c) {
-                            drop(st);
-                            st = open(&mut n_db);
+                    for (k, c) in part {
+                        let t0 = std::time::Instant::now();
+                        let _g = Timer(t0, c.pm);
+                        if c.pm {
+                            if pm.is_none() {
+                                n_pm_dirs += 1;
+                                let d = work.join(format!("c17-w{}-pm{}", w, n_pm_dirs));
+                                pm = Some(PersistenceManager::new(&d).expect("persistence manager"));
+                            }
+                            let m = pm.as_ref().unwrap();
+                            for t in dedup_keep(c.ops.iter().map(|o| o.tenant().to_string())) {
+                                let _ = m.tenants().create_tenant(t.clone(), t.clone(), None);
+                            }
+                            out.push((*k, run_real(&Store::Pm(m), &c.ops)));
+                            if !clean(m.storage(), &c.ops) {
+                                pm = None; // something is left behind: next case gets a fresh directory
+                            }
+                        } else {
+                            out.push((*k, run_real(&Store::St(&st), &c.ops)));
+                            if !clean(&st, &c.ops) {
+                                drop(st);
+                                st = open(&mut n_db);
+                            }
                         }
                     }
                     out
                 })
             })
             .collect();
-        hs.into_iter().flat_map(|h| h.join().expect("real thread")).collect()
+        hs.into_iter().map(|h| h.join().expect("real thread")).collect()
     });
+    for part in parts {
+        for (k, r) in part {
+            reals[k] = Some(r);
+        }
+    }
+    let reals: Vec<RealRun> = reals.into_iter().map(|r| r.expect("every case ran")).collect();
+    rep.extra.insert("real_phase_s".into(), json!(rep.elapsed_s()));
+    rep.extra.insert("thread_seconds_persistence_manager_cases".into(), json!(T_PM_US.load(std::sync::atomic::Ordering::Relaxed) as f64 / 1e6));
+    rep.extra.insert("thread_seconds_storage_cases".into(), json!(T_ST_US.load(std::sync::atomic::Ordering::Relaxed) as f64 / 1e6));
 
-    let rendered: Vec<String> = cases.iter().map(|c| render(c)).collect();
+    let rendered: Vec<String> = cases.iter().map(|c| render(&c.ops)).collect();
     let mut lines = Vec::with_capacity(cases.len() * 3);
     for (k, r) in rendered.iter().enumerate() {
-        let names: Vec<String> = dedup_keep(cases[k].iter().map(|o| o.tenant().to_string()));
+        let names: Vec<String> = dedup_keep(cases[k].ops.iter().map(|o| o.tenant().to_string()));
         lines.push(format!("run {}", r));
         lines.push(format!("spec {} {}", r, reals[k].obs.join(";")));
         lines.push(format!("create {}", names.iter().map(|t| hex(t.as_bytes())).collect::<Vec<_>>().join(",")));
     }
     let replies = driver::par_batch(&exe, &lines, 12);
+    rep.extra.insert("real_plus_driver_phase_s".into(), json!(rep.elapsed_s()));
 
     let mut first_break: Option<String> = None;
-    for (k, c) in cases.iter().enumerate() {
+    for (k, case) in cases.iter().enumerate() {
+        let c = &case.ops;
         let m = &replies[3 * k];
         let s = &replies[3 * k + 1];
         let mc = &replies[3 * k + 2];
         let rr = &reals[k];
-        rep.case(&rendered[k], rr.two_tenants_hold_data);
+        let canon = format!("{}{}", if case.pm { "pm " } else { "" }, rendered[k]);
+        rep.case(&canon, rr.two_tenants_hold_data);
+        rep.count(if case.pm { "front-end:PersistenceManager(persist_*/recover)" } else { "front-end:PersistentStorage" });
         for o in c {
             rep.count(match o {
                 Op::PutNode(..) => "op:put_node",
@@ -382,20 +616,35 @@ fn main() {
                 "name:empty"
             } else if t.contains(':') {
                 "name:contains-separator"
+            } else if t.trim() != t || t.chars().any(|ch| ch.is_control() || "\u{200b}\u{200d}\u{feff}".contains(ch)) {
+                "name:accepted-with-whitespace/control/zero-width"
             } else if !t.is_ascii() {
                 "name:non-ascii"
+            } else if t.len() > 200 {
+                "name:long"
             } else {
                 "name:plain"
             });
         }
+        if names.iter().any(|a| names.iter().any(|b| a != b && groups.iter().any(|g| g.contains(a) && g.contains(b)))) {
+            rep.count("cases_with_near-identical_accepted_pair");
+        }
         if rr.obs.iter().any(|o| o.starts_with('0')) {
             rep.count("cases_with_rejected_write");
         }
-        if rr.two_tenants_hold_data && rep.samples.len() < 3 {
-            rep.sample(json!({"ops": rendered[k], "names": names, "impl_obs_last": rr.obs.last()}));
+        if rr.two_tenants_hold_data && rep.samples.len() < 4 && (k % 7 == 0) {
+            rep.sample(json!({"ops": rendered[k], "pm": case.pm, "names": names, "impl_obs_last": rr.obs.last()}));
         }
         let obs_txt = rr.obs.join(";");
-        let body = format!("ops {}\nnames {:?}\nimpl  {}\nmodel {}\nspec  {}", rendered[k], names, obs_txt, m, s);
+        let body = format!(
+            "{} {}\nnames {:?}\nimpl  {}\nmodel {}\nspec  {}",
+            if case.pm { "pmops" } else { "ops" },
+            rendered[k],
+            names,
+            obs_txt,
+            m,
+            s
+        );
         // TenantManager::create_tenant on a fresh manager, names in order
         let tm = TenantManager::new();
         let created: Vec<bool> = names.iter().map(|t| tm.create_tenant(t.clone(), t.clone(), None).is_ok()).collect();
@@ -425,7 +674,13 @@ fn main() {
             rep.spec_violation(
                 &known,
                 sig,
-                &format!("a scan / read / tenant listing returned data that was not stored for that tenant ({}) on `{}` names {:?}", s, rendered[k], names),
+                &format!(
+                    "a scan / read / recover / tenant listing returned data that was not stored for that tenant, or lost data that was ({}) on `{}` names {:?}{}",
+                    s,
+                    rendered[k],
+                    names,
+                    if case.pm { " through PersistenceManager" } else { "" }
+                ),
                 &body,
             );
         }
@@ -437,7 +692,7 @@ fn main() {
     if let Some(body) = first_break {
         if rep.spec_violations.is_empty() {
             rep.correspondence_break(
-                "SgModel.TenantKV.{stepWith accepts,scanNodes,scanEdges,getNode,getEdge,listTenants,createTenant} = PersistentStorage::{put_*,delete_*,scan_*,get_*,list_persisted_tenants} / TenantManager::create_tenant (observations)",
+                "SgModel.TenantKV.{stepWith accepts,scanNodes,scanEdges,getNode,getEdge,listTenants,createTenant} = PersistentStorage::{put_*,delete_*,scan_*,get_*,list_persisted_tenants} / PersistenceManager::{persist_*,recover} / TenantManager::create_tenant (observations)",
                 "model and implementation observations differ but the specification holds on all explored cases",
                 &body,
             );
